@@ -350,6 +350,92 @@ Proof.
   rewrite <- (sort_perm P fs HP NP). symmetry. apply sort_by_frag_sorted with (1 - 1). apply in_order_sorted. exact N.
 Qed.
 
+(* ================================================================ one message inside an arbitrary C03 schedule *)
+
+(* the fragments F of one message, picked by fragment number 1..n: the sorted fragments *)
+Lemma in_order_is_sorted : forall sq ch (F : list sfrag), complete_message sq ch (map sf_sent F) ->
+  map sf_sent (flat_map (fun k => filter (fun f => f_num f =? k) F) (asm_zrange 1 (length F))) = sort_by_frag (map sf_sent F).
+Proof.
+  intros sq ch F C. set (fs := map sf_sent F) in *.
+  assert (N : NoDup (map f_num F)) by (unfold f_num; rewrite <- map_map; exact (cm_nodup _ _ _ C)).
+  set (P := map sf_sent (flat_map (fun k => filter (fun f => f_num f =? k) F) (asm_zrange 1 (length F)))).
+  assert (HP : Permutation P fs).
+  { unfold P, fs. apply Permutation_map. apply perm_flat_map_filter; [apply zrange_NoDup|].
+    intros x Hx. apply zrange_In. pose proof (cm_range _ _ _ (sf_sent x) C (in_map sf_sent _ _ Hx)) as R.
+    unfold fs in R. rewrite map_length in R. unfold f_num. lia. }
+  assert (NP : NoDup (map a_frag_num P)).
+  { apply (Permutation_NoDup (Permutation_map a_frag_num (Permutation_sym HP))). exact (cm_nodup _ _ _ C). }
+  rewrite <- (sort_perm P fs HP NP). symmetry. apply sort_by_frag_sorted with (1 - 1). apply in_order_sorted. exact N.
+Qed.
+
+(* what the specification prescribes for the message whose fragments are F (n of them) *)
+Definition msg_delivery_of (n : nat) (sq : option Z) (ch : list Z) (F : list sfrag) : asm_delivery :=
+  let parts := map sf_sent (flat_map (fun k => filter (fun f => f_num f =? k) F) (asm_zrange 1 n)) in
+  mkDelivery (asm_join_lf (map (fun p => c_raw (a_common p)) parts)) (concat (map a_payload parts))
+             (concat (map a_bits parts)) (forallb (fun p => c_is_valid (a_common p)) parts) sq ch.
+
+Lemma spec_assemble_msg : forall f arrived,
+  spec_assemble f arrived = msg_delivery_of (Z.to_nat (f_cnt f)) (f_seq f) (f_chan f) (frags_of (sf_msg f) arrived).
+Proof. reflexivity. Qed.
+
+(* is this line of the schedule a fragment of message m? *)
+Definition item_of_msg (m : nat) (i : asm_item) : bool :=
+  match i with IFrag f => Nat.eqb (sf_msg f) m | _ => false end.
+
+Lemma pick_map : forall A B (g : A -> B) mask (outs : list (list A)),
+  pick mask (map (map g) outs) = map g (pick mask outs).
+Proof.
+  intros A B g mask. induction mask as [|b mk IH]; intros [|o r]; try reflexivity.
+  cbn [map pick]. rewrite map_app, IH. destruct b; reflexivity.
+Qed.
+
+Lemma pick_no_msg : forall m sch bef, frags_of m (asm_frags sch) = [] ->
+  pick (map (item_of_msg m) sch) (spec_deliveries_from bef sch) = [].
+Proof.
+  intros m sch. induction sch as [|i sch IH]; intros bef H; [reflexivity|].
+  destruct i as [f|g|e]; cbn [map item_of_msg spec_deliveries_from pick asm_frags] in *.
+  - unfold frags_of in H. cbn [filter] in H. destruct (Nat.eqb (sf_msg f) m); [discriminate|]. cbn [app]. apply IH. exact H.
+  - apply IH. exact H.
+  - apply IH. exact H.
+Qed.
+
+(* In any schedule in which message m is complete (n fragments, all carrying count n, sequence id sq, channel ch): the
+   specification delivers, at the lines of m, exactly one message -- at its last fragment, made of all its fragments.
+   Other messages, in the same slot or not, wrappers and skipped lines may stand anywhere. *)
+Lemma spec_message : forall m n sq ch sch bef,
+  (forall f, In f (bef ++ asm_frags sch) -> sf_msg f = m -> f_cnt f = Z.of_nat n /\ f_seq f = sq /\ f_chan f = ch) ->
+  length (frags_of m (bef ++ asm_frags sch)) = n -> frags_of m (asm_frags sch) <> [] ->
+  pick (map (item_of_msg m) sch) (spec_deliveries_from bef sch) =
+  [msg_delivery_of n sq ch (frags_of m (bef ++ asm_frags sch))].
+Proof.
+  intros m n sq ch sch. induction sch as [|i sch IH]; intros bef H L Hne; [contradiction|].
+  destruct i as [f|g|e]; cbn [map item_of_msg spec_deliveries_from pick asm_frags] in *.
+  - assert (Eapp : bef ++ f :: asm_frags sch = (bef ++ [f]) ++ asm_frags sch) by (rewrite <- app_assoc; reflexivity).
+    destruct (Nat.eqb (sf_msg f) m) eqn:Em.
+    + apply Nat.eqb_eq in Em.
+      destruct (H f ltac:(apply in_or_app; right; left; reflexivity) Em) as [Hc [Hs Hch]].
+      rewrite Eapp, frags_of_app in L. rewrite app_length in L.
+      destruct (frags_of m (asm_frags sch)) as [|x r] eqn:Erest.
+      * (* f is the last fragment of m *)
+        cbn [length] in L. rewrite Nat.add_0_r in L. unfold completes. rewrite Em, L, Hc, Z.eqb_refl.
+        rewrite (pick_no_msg m sch (bef ++ [f]) Erest), app_nil_r.
+        rewrite spec_assemble_msg, Hc, Hs, Hch, Nat2Z.id, Em.
+        rewrite Eapp, (frags_of_app m (bef ++ [f]) (asm_frags sch)), Erest, app_nil_r. reflexivity.
+      * (* more fragments of m follow *)
+        assert (Hlt : Z.of_nat (length (frags_of m (bef ++ [f]))) <> Z.of_nat n) by (cbn [length] in L; lia).
+        unfold completes. rewrite Em, Hc. apply Z.eqb_neq in Hlt. rewrite Hlt. cbn [app].
+        rewrite Eapp. apply IH.
+        -- intros y Hy. apply H. rewrite Eapp. exact Hy.
+        -- rewrite frags_of_app, app_length, Erest. exact L.
+        -- discriminate.
+    + cbn [app]. rewrite Eapp. apply IH.
+      * intros y Hy. apply H. rewrite Eapp. exact Hy.
+      * rewrite <- Eapp. exact L.
+      * unfold frags_of in Hne |- *. cbn [filter] in Hne. rewrite Em in Hne. exact Hne.
+  - cbn [app]. apply IH; assumption.
+  - cbn [app]. apply IH; assumption.
+Qed.
+
 (* ================================================================ every delivered sentence carries its own message id *)
 
 Definition id_ok (a : ais_sentence) : Prop := a_ais_id a = get_int (a_bits a) 0 6 false.
@@ -675,6 +761,100 @@ Section Ingest.
     exists nmea. split; [exact Ha|]. split; [now rewrite Hvn, view_attach|].
     unfold message_of in Hdec. rewrite Hdec. apply sentence_decode_view. now rewrite Hvn, view_attach.
   Qed.
+  (* ---------------------------------------------------------------- lines that parse to a schedule *)
+
+  Definition tbq_accepts_sentence (s : sentence) : Prop :=
+    match c_tag_block (sentence_common s) with None => True | Some raw => exists tb, tb_init uni raw = Ok tb end.
+
+  Lemma tbq_accepts_sentence_put : forall s tq, tbq_accepts_sentence s -> exists r, tbq_put uni tq s = Ok r.
+  Proof.
+    intros s tq H. unfold tbq_accepts_sentence in H. unfold tbq_put.
+    destruct (c_tag_block (sentence_common s)) as [raw|]; [|eexists; reflexivity].
+    destruct H as [tb ->]. cbn [bind]. destruct (tb_group tb) as [[[n t] g]|]; [|eexists; reflexivity].
+    destruct (t =? 1); [eexists; reflexivity|]. destruct (n =? 1); [eexists; reflexivity|].
+    destruct (tbq_get tq g) as [[tot0 ss]|]; [|eexists; reflexivity].
+    destruct (negb _); eexists; reflexivity.
+  Qed.
+
+  (* line l is the schedule item i: it parses to that fragment / that wrapper (and the tag block queue, if there is one,
+     does not reject it), or produce raises that library exception on it *)
+  Definition line_item (use_tbq : bool) (l : bytes) (i : asm_item) : Prop :=
+    match i with
+    | IFrag f => produce l = Ok (SAis (sf_sent f)) /\ (use_tbq = true -> tbq_accepts (sf_sent f))
+    | IWrapper g => produce l = Ok (SGatehouse g) /\ (use_tbq = true -> tbq_accepts_sentence (SGatehouse g))
+    | ISkipped e => produce l = Raise (Lib e)
+    end.
+
+  Lemma rd_inputs_schedule : forall use_tbq ls sch, Forall2 (line_item use_tbq) ls sch ->
+    forall tq, rd_inputs uni use_tbq tq ls = schedule_lines sch.
+  Proof.
+    intros use_tbq ls sch H. induction H as [|l i ls sch Hli _ IH]; intro tq; [reflexivity|].
+    cbn [rd_inputs schedule_lines map]. unfold rd_feed. destruct i as [f|g|e]; cbn [line_item] in Hli.
+    - destruct Hli as [-> Hacc]. destruct use_tbq.
+      + destruct (tbq_accepts_put (sf_sent f) tq (Hacc eq_refl)) as [[tq' o] ->]. cbn [item_line]. f_equal. apply IH.
+      + cbn [item_line]. f_equal. apply IH.
+    - destruct Hli as [-> Hacc]. destruct use_tbq.
+      + destruct (tbq_accepts_sentence_put (SGatehouse g) tq (Hacc eq_refl)) as [[tq' o] ->]. cbn [item_line]. f_equal. apply IH.
+      + cbn [item_line]. f_equal. apply IH.
+    - rewrite Hli. cbn [item_line]. f_equal. apply IH.
+  Qed.
+
+  (* ---------------------------------------------------------------- any message of any well-formed line schedule *)
+
+  (* ls: lines that parse (produce + tag block queue) to a C03 well-formed schedule sch -- any number of messages, any
+     interleaving and per-message arrival order, slots reused after completion, incomplete sets, single-sentence messages,
+     wrappers and skipped lines.  m: a message of sch whose fragments are (a rearrangement of) fs = what the lines `parts`
+     parse to, complete.  Then the reader delivers, at the lines of m, exactly one sentence d; d carries the message; and
+     decode( *parts' ) agrees with d.decode() for every order parts' of the parts.  Multi- and single-sentence messages alike. *)
+  Theorem decode_agrees_in_schedule : forall step use_tbq ls sch m parts fs sq ch,
+    is_reader_loop step -> WF sch -> rd_inputs uni use_tbq [] ls = schedule_lines sch ->
+    Forall2 line_ais parts fs -> complete_message sq ch fs ->
+    Permutation fs (map sf_sent (frags_of m (asm_frags sch))) ->
+    exists outs st d,
+      rd_run uni step use_tbq rd_init ls = (outs, Ok st) /\ length outs = length ls /\
+      pick (map (item_of_msg m) sch) (map fst outs) = [d] /\
+      view d = msg_view fs /\ a_seq_id d = sq /\ a_channel d = ch /\
+      forall parts', Permutation parts parts' ->
+        exists nmea, assemble_messages false parts' = Ok nmea /\ view nmea = view d /\
+                     sentence_decode d = mmap snd (decode_api false parts').
+  Proof.
+    intros step use_tbq ls sch m parts fs sq ch Hloop HW Hin Hparts C Pm.
+    destruct (rd_run_total uni step use_tbq ls rd_init Hloop rd_inv_init) as [outs [st [Er [Hlen _]]]].
+    destruct (wf_schedule_decode step use_tbq ls sch Hloop HW Hin) as [outs' [st' [Er' [Hspec _]]]].
+    rewrite Er in Er'. inversion Er'; subst outs' st'. clear Er'.
+    set (F := frags_of m (asm_frags sch)) in *.
+    pose proof (cm_perm _ _ _ _ C Pm) as CF.
+    assert (HlenF : length F = length fs) by (rewrite (Permutation_length Pm); now rewrite map_length).
+    (* the specification at the lines of m *)
+    assert (Hpick : pick (map (item_of_msg m) sch) (spec_deliveries sch) = [msg_delivery_of (length F) sq ch F]).
+    { unfold spec_deliveries. apply (spec_message m (length F) sq ch sch []).
+      - cbn [app]. intros f Hf Hm.
+        assert (HfF : In f F) by (unfold F; apply frags_of_In; split; assumption).
+        pose proof (in_map sf_sent _ _ HfF) as Hs.
+        pose proof (cm_seq _ _ _ CF) as H1. pose proof (cm_chan _ _ _ CF) as H2. pose proof (cm_cnt _ _ _ CF) as H3.
+        rewrite Forall_forall in H1, H2, H3. unfold f_cnt, f_seq, f_chan.
+        rewrite (H1 _ Hs), (H2 _ Hs), (H3 _ Hs), map_length. repeat split.
+      - reflexivity.
+      - fold F. intro E. apply (cm_nonempty _ _ _ CF). rewrite E. reflexivity. }
+    rewrite <- Hspec, pick_map in Hpick. apply map_singleton in Hpick. destruct Hpick as [d [Hd Hdl]].
+    exists outs, st, d. split; [exact Er|]. split; [exact Hlen|]. split; [exact Hd|].
+    assert (Hid : id_ok d).
+    { pose proof (rd_run_id_ok step use_tbq Hloop ls rd_init) as Hall. rewrite Er in Hall. cbn [fst] in Hall.
+      assert (Hin' : In d (pick (map (item_of_msg m) sch) (map fst outs))) by (rewrite Hd; left; reflexivity).
+      apply pick_in in Hin'. destruct Hin' as [o [Ho Hdo]]. apply in_map_iff in Ho. destruct Ho as [oo [<- Hoo]].
+      rewrite Forall_forall in Hall. specialize (Hall oo Hoo). rewrite Forall_forall in Hall. exact (Hall d Hdo). }
+    unfold msg_delivery_of in Hdl. rewrite (in_order_is_sorted sq ch F CF) in Hdl.
+    rewrite <- (sort_perm fs (map sf_sent F) Pm (cm_nodup _ _ _ C)) in Hdl.
+    unfold delivery_of in Hdl. injection Hdl as R1 R2 R3 R4 R5 R6.
+    assert (Hv : view d = msg_view fs).
+    { unfold view, msg_view. rewrite Hid, R1, R2, R3, R4. rewrite join_raw_join_lf, !flat_map_concat_map. reflexivity. }
+    split; [exact Hv|]. split; [exact R5|]. split; [exact R6|].
+    intros parts' P. destruct (line_ais_perm parts fs parts' Hparts P) as [fs' [Hparts' Pfs]].
+    destruct (decode_api_complete parts' fs' sq ch Hparts' (cm_perm _ _ _ _ C Pfs)) as [nmea [Ha [Hvn [_ [_ Hdec]]]]].
+    rewrite <- (msg_view_perm fs fs' Pfs (cm_nodup _ _ _ C)) in Hvn.
+    exists nmea. split; [exact Ha|]. split; [now rewrite Hvn, Hv|].
+    unfold message_of in Hdec. rewrite Hdec. apply sentence_decode_view. now rewrite Hvn, Hv.
+  Qed.
 End Ingest.
 
 (* ================================================================ both loops, one statement *)
@@ -718,4 +898,23 @@ Proof.
   intros uni step use_tbq Hl. apply reader_loop_is_reader_loop in Hl. split.
   - intros parts fs sq ch ls. exact (decode_agrees_message uni step use_tbq parts fs sq ch ls Hl).
   - intros p f pre post. exact (decode_agrees_single uni step use_tbq p f pre post Hl).
+Qed.
+
+(* the same, for every message of every well-formed line schedule (slots reused, other messages of the same slot before
+   and after, incomplete sets, singles, wrappers, skipped lines).  line_item: the line parses to that schedule item. *)
+Theorem decode_agrees_schedule : forall uni step use_tbq, reader_loop step ->
+  forall ls sch m parts fs sq ch,
+    WF sch -> Forall2 (line_item uni use_tbq) ls sch ->
+    Forall2 line_ais parts fs -> complete_message sq ch fs ->
+    Permutation fs (map sf_sent (frags_of m (asm_frags sch))) ->
+    exists outs st d,
+      rd_run uni step use_tbq rd_init ls = (outs, Ok st) /\ length outs = length ls /\
+      pick (map (item_of_msg m) sch) (map fst outs) = [d] /\
+      view d = msg_view fs /\ a_seq_id d = sq /\ a_channel d = ch /\
+      forall parts', Permutation parts parts' ->
+        exists nmea, assemble_messages false parts' = Ok nmea /\ view nmea = view d /\
+                     sentence_decode d = mmap snd (decode_api false parts').
+Proof.
+  intros uni step use_tbq Hl ls sch m parts fs sq ch HW Hli. apply reader_loop_is_reader_loop in Hl.
+  exact (decode_agrees_in_schedule uni step use_tbq ls sch m parts fs sq ch Hl HW (rd_inputs_schedule uni use_tbq ls sch Hli [])).
 Qed.
